@@ -143,6 +143,7 @@ func (s *Server) servePacket(pc net.PacketConn) error {
 					readCh:     make(chan *packet, 5),
 					addr:       pkt.addr,
 					closeCh:    closeCh,
+					closed:     make(chan struct{}),
 				}
 				udpConns[pkt.addr.String()] = conn
 				go func(conn *packetConn) {
@@ -155,7 +156,14 @@ func (s *Server) servePacket(pc net.PacketConn) error {
 					// the old one shutting down.
 				}(conn)
 			}
-			conn.readCh <- &pkt
+			select {
+			case conn.readCh <- &pkt:
+			case <-conn.closed:
+				// The handler of this association has already called Close()
+				// but its notification hasn't been processed yet. The
+				// datagram is dropped, as Close() would have done.
+				udpBufPool.Put(pkt.pooledBuf)
+			}
 		}
 	}
 }
@@ -236,6 +244,10 @@ type packetConn struct {
 	addr    net.Addr
 	readCh  chan *packet
 	closeCh chan string
+	// closed is closed by Close(). readCh itself is never closed, because
+	// the server loop may be sending on it at any time.
+	closed    chan struct{}
+	closeOnce sync.Once
 	// If not nil, then the previous Read() call didn't consume all the data
 	// from the buffer, and this packet will be reused in the next Read()
 	// without waiting for readCh.
@@ -291,12 +303,10 @@ func (pc *packetConn) Read(b []byte) (n int, err error) {
 	var done bool
 	for !done {
 		select {
+		case <-pc.closed:
+			// Close() was called. Return EOF below.
+			done = true
 		case pkt := <-pc.readCh:
-			if pkt == nil {
-				// Channel is closed. Return EOF below.
-				done = true
-				break
-			}
 			buf := bytes.NewReader(pkt.pooledBuf[:pkt.n])
 			n, err = buf.Read(b)
 			if buf.Len() == 0 {
@@ -341,10 +351,15 @@ func (pc *packetConn) Close() error {
 		pc.lastPacket = nil
 	}
 	// This will abort any active Read() from another goroutine and return EOF
-	close(pc.readCh)
+	pc.closeOnce.Do(func() { close(pc.closed) })
 	// Drain pending packets to ensure we release buffers back to the pool
-	for pkt := range pc.readCh {
-		udpBufPool.Put(pkt.pooledBuf)
+	for drained := false; !drained; {
+		select {
+		case pkt := <-pc.readCh:
+			udpBufPool.Put(pkt.pooledBuf)
+		default:
+			drained = true
+		}
 	}
 	// We may have already done this earlier in Read(), but just in case
 	// Read() wasn't being called, (re-)notify server loop we're closed.
